@@ -53,6 +53,7 @@ type Term struct {
 	p2   int    // extract lo
 	// set once the term has been defined in a solver (per solver id bitmask)
 	defined uint32
+	k0, k1  uint64 // known-zero / known-one bits (bit-vectors)
 }
 
 func (t *Term) isConst() bool { return t.op == "const" }
@@ -105,6 +106,13 @@ func (tb *termTable) intern(op string, sort Sort, cval uint64, name string, p1, 
 	tb.m[key] = t
 	if op == "var" {
 		tb.vars = append(tb.vars, t)
+	}
+	t.computeKnown()
+	if sort.k == sBV && op != "const" && t.k0|t.k1 == maskW(sort.w) {
+		// every bit is known: the term is a constant
+		c := mkBV(t.k1, sort.w)
+		tb.m[key] = c
+		return c
 	}
 	return t
 }
@@ -287,6 +295,12 @@ func mkEq(a, b *Term) *Term {
 				return a
 			}
 			return mkNot(a)
+		}
+	}
+	if a.sort.k == sBV {
+		// known bits that disagree
+		if a.k1&b.k0 != 0 || a.k0&b.k1 != 0 {
+			return tFalse
 		}
 	}
 	if a.id > b.id {
@@ -505,6 +519,33 @@ func mkCmp(op string, a, b *Term) *Term {
 			return tFalse
 		default:
 			return tTrue
+		}
+	}
+	if a.sort.k == sBV {
+		switch op {
+		case "bvult":
+			if a.umax() < b.umin() {
+				return tTrue
+			}
+			if a.umin() >= b.umax() {
+				return tFalse
+			}
+		case "bvule":
+			if a.umax() <= b.umin() {
+				return tTrue
+			}
+			if a.umin() > b.umax() {
+				return tFalse
+			}
+		case "bvslt", "bvsle":
+			// both known non-negative: same as unsigned
+			sb := uint64(1) << uint(a.sort.w-1)
+			if a.k0&sb != 0 && b.k0&sb != 0 {
+				if op == "bvslt" {
+					return mkCmp("bvult", a, b)
+				}
+				return mkCmp("bvule", a, b)
+			}
 		}
 	}
 	return tt.intern(op, boolSort, 0, "", 0, 0, a, b)
